@@ -369,9 +369,9 @@ pub fn gen_history(r: &mut Rng, k: &Knobs) -> String {
                 s.ips = pool[0].ips.clone();
             }
         }
-        if k.w_tiebreak > 0 {
-            s.inst = format!("{}-{}", s.inst, i); // distinct instance names (see generate_c07)
-        } else if i > 0 && r.chance(1, 6) {
+        if k.w_tiebreak > 0 || k.w_conflict > 0 {
+            s.inst = format!("{}-{}", s.inst, i); // distinct instance names (see generate_c07 and below)
+        } else if i > 0 && k.w_conflict == 0 && r.chance(1, 6) {
             s.inst = flip_case(&pool[0].inst, 1 + r.below(2)); // same name in another letter case
             s.ty = pool[0].ty.clone();
             s.ty_arg = pool[0].ty_arg.clone();
@@ -412,7 +412,13 @@ pub fn gen_history(r: &mut Rng, k: &Knobs) -> String {
                         0 => s.port = s.port.wrapping_add(1),
                         1 => s.props = vec![("new".to_string(), Some("1".to_string()))],
                         2 => s.ips = vec![topo.addr_pool(5)[0].clone()],
-                        3 => s.inst = flip_case(&s.inst, 1 + r.below(2)),
+                        // The same name in another letter case: both spellings then sit in the
+                        // `waiting_services` hash set of a shared probe and whichever comes first
+                        // names the Announce event.  Without renames the two differ in letter case
+                        // only (compared lower-cased); after a rename by conflict resolution they
+                        // resolve to different names, so histories with conflicting responses do
+                        // not register one name in two letter cases.
+                        3 if k.w_conflict == 0 => s.inst = flip_case(&s.inst, 1 + r.below(2)),
                         4 => s.host = "delta.local.".to_string(),
                         _ => {}
                     }
@@ -508,7 +514,7 @@ pub fn generate_c07(r: &mut Rng, tier: &str, emit: &mut dyn FnMut(String)) {
         emit(gen_history(r, &k));
     }
     // (b) mixed histories
-    for _ in 0..count(tier, 120, 1500) {
+    for _ in 0..count(tier, 1500, 15000) {
         // Tiebreaking compares the probe's records pairwise in the order `Probe::insert_record`
         // gave them; among records of one type that order is whatever `binary_search_by`
         // returns ("any one of the matches").  Histories with competing probe queries therefore
@@ -517,7 +523,8 @@ pub fn generate_c07(r: &mut Rng, tier: &str, emit: &mut dyn FnMut(String)) {
         let tb = r.chance(1, 3);
         let k = Knobs {
             tag: "C07", topo: topo_of(r), steps: r.range(2, 8), w_register: 4, w_rereg: if tb { 0 } else { 2 }, w_unregister: 1,
-            w_query: 3, w_tiebreak: if tb { 2 } else { 0 }, w_conflict: 1, w_jump: 1, shutdown: r.chance(1, 6), jitter: None,
+            w_query: 3, w_tiebreak: if tb { 2 } else { 0 }, w_conflict: if r.chance(1, 2) { 1 } else { 0 }, w_jump: 1,
+            shutdown: r.chance(1, 6), jitter: None,
         };
         emit(gen_history(r, &k));
     }
@@ -525,7 +532,7 @@ pub fn generate_c07(r: &mut Rng, tier: &str, emit: &mut dyn FnMut(String)) {
 
 /// C09: unregister / re-register / shutdown at times around 120, 250, 750, 1000 ms
 pub fn generate_c09(r: &mut Rng, tier: &str, emit: &mut dyn FnMut(String)) {
-    for _ in 0..count(tier, 160, 2000) {
+    for _ in 0..count(tier, 1800, 18000) {
         let k = Knobs {
             tag: "C09", topo: topo_of(r), steps: r.range(2, 8), w_register: 3, w_rereg: 2, w_unregister: 4, w_query: 3,
             w_tiebreak: 0, w_conflict: if r.chance(1, 4) { 1 } else { 0 }, w_jump: 1, shutdown: r.chance(1, 2), jitter: None,
@@ -536,7 +543,7 @@ pub fn generate_c09(r: &mut Rng, tier: &str, emit: &mut dyn FnMut(String)) {
 
 /// C06: queries of every kind before, during and after probing
 pub fn generate_c06(r: &mut Rng, tier: &str, emit: &mut dyn FnMut(String)) {
-    for _ in 0..count(tier, 160, 2000) {
+    for _ in 0..count(tier, 1800, 18000) {
         let k = Knobs {
             tag: "C06", topo: topo_of(r), steps: r.range(3, 10), w_register: 2, w_rereg: 1, w_unregister: 1, w_query: 8,
             w_tiebreak: 0, w_conflict: if r.chance(1, 5) { 1 } else { 0 }, w_jump: 0, shutdown: r.chance(1, 8), jitter: None,
